@@ -26,6 +26,8 @@ var injections = []injection{
 	{"M3-not-multiple", func(in, u string) string { return in + " - z" }},
 	{"M3-mixed-tab-space", func(in, u string) string { return in + " \t- z" }},
 	{"M3-mixed-space-tab", func(in, u string) string { return in + "\t - z" }},
+	{"M1-bom-before-bullet", func(in, u string) string { return in + "\ufeff- z" }},
+	{"M1-nbsp-before-bullet", func(in, u string) string { return in + "\u00a0- z" }},
 	{"M4-jump2", func(in, u string) string { return in + u + u + "- z" }},
 	{"M4-jump3", func(in, u string) string { return in + u + u + u + "- z" }},
 }
